@@ -4,7 +4,7 @@
    terminated (no NoFuel), stayed inside every buffer it touched (no Oob), met no undefined behaviour (no Ub) and
    returned v, where v is written with the textbook functions of lib/Str.v and C13_Text.v. *)
 From Coq Require Import NArith ZArith Bool List.
-From CppUVerif Require Import lib.Str C13_Text C13_Model C13_Proofs.
+From CppUVerif Require Import lib.Str C13_Text C13_Model C13_Proofs C13_Replace C13_Printable C13_Concat C13_Alloc C13_Main.
 Import ListNotations.
 Local Open Scope N_scope.
 
@@ -90,6 +90,74 @@ Print Assumptions C13_ordinal_spec.
 Theorem C13_ordinal_old_refuted : ~ (forall n, n < 4294967296 -> ordinal_old n = t_ordinal n).
 Proof. exact ordinal_old_refuted. Qed.
 Print Assumptions C13_ordinal_old_refuted.
+
+(* replace(const char*, const char* ) after the D9/D19 repairs: leftmost non-overlapping substitution, exact buffer size *)
+Theorem C13_replaceStr_spec : forall a to w, NN a -> NN to -> NN w ->
+  exists buf, replaceStr_m (cs a) (cs to) (cs w) = Ok buf /\ cstr_of buf = Some (t_replace a to w).
+Proof. exact replaceStr_ok. Qed.
+Print Assumptions C13_replaceStr_spec.
+
+Theorem C13_replaceStr_old_overlap_refuted :
+  ~ (forall a to w, nonul a = true -> nonul to = true -> nonul w = true -> replaceStr_old (cs a) (cs to) (cs w) <> Oob).
+Proof. exact replaceStr_old_overlap_refuted. Qed.
+Print Assumptions C13_replaceStr_old_overlap_refuted.
+
+Theorem C13_replaceStr_old_wrong_refuted :
+  ~ (forall a to w buf, nonul a = true -> nonul to = true -> nonul w = true ->
+       replaceStr_old (cs a) (cs to) (cs w) = Ok buf -> cstr_of buf = Some (t_replace a to w)).
+Proof. exact replaceStr_old_wrong_refuted. Qed.
+Print Assumptions C13_replaceStr_old_wrong_refuted.
+
+Theorem C13_replaceStr_old_empty_refuted :
+  ~ (forall a w, nonul a = true -> nonul w = true -> exists buf, replaceStr_old (cs a) (cs []) (cs w) = Ok buf).
+Proof. exact replaceStr_old_empty_refuted. Qed.
+Print Assumptions C13_replaceStr_old_empty_refuted.
+
+(* printable(): exact size pre-computation, escape table, bytes >= 0x80 as \xNN (D11 repair) *)
+Theorem C13_printable_spec : forall a, BY a -> NN a ->
+  exists buf, printable_m (cs a) = Ok buf /\ cstr_of buf = Some (t_printable a).
+Proof. exact printable_ok. Qed.
+Print Assumptions C13_printable_spec.
+
+Theorem C13_printable_old_refuted :
+  ~ (forall a buf, nonul a = true -> printable_old (cs a) = Ok buf -> cstr_of buf = Some (t_printable a)).
+Proof. exact printable_old_refuted. Qed.
+Print Assumptions C13_printable_old_refuted.
+
+Theorem C13_append_spec : forall a b ra rb, NN a -> NN b -> append_m (a ++ 0 :: ra) (b ++ 0 :: rb) = Ok (a ++ b ++ [0]).
+Proof. exact append_ok. Qed.
+Print Assumptions C13_append_spec.
+
+Theorem C13_plus_spec : forall a b ra rb, NN a -> NN b -> plus_m (a ++ 0 :: ra) (b ++ 0 :: rb) = Ok (a ++ b ++ [0]).
+Proof. exact plus_ok. Qed.
+Print Assumptions C13_plus_spec.
+
+Theorem C13_copyToBuffer_spec : forall a r dn, NN a -> copyToBuffer_m (a ++ 0 :: r) (fresh dn) dn = Ok (t_copy_out a dn).
+Proof. exact copyToBuffer_ok. Qed.
+Print Assumptions C13_copyToBuffer_spec.
+
+(* every buffer of an object's life (any sequence of the buffer-management primitives, then the destructor) is returned
+   exactly once and with the size it was requested with *)
+Theorem C13_alloc_pairing : forall ps, paired (life ps) = true.
+Proof. exact alloc_pairing. Qed.
+Print Assumptions C13_alloc_pairing.
+
+(* VStringFromFormat (100-byte fast path and allocated slow path): same text, temporary buffer paired *)
+Theorem C13_format_spec : forall text, NN text -> format_m text = Ok (text ++ [0]).
+Proof. exact format_ok. Qed.
+Print Assumptions C13_format_spec.
+
+Theorem C13_format_paired : forall size, paired (format_log size) = true.
+Proof. exact format_paired. Qed.
+Print Assumptions C13_format_paired.
+
+Theorem C13_format_wrong_size_refuted : ~ (forall size, paired (format_log_wrong size) = true).
+Proof. exact format_wrong_refuted. Qed.
+Print Assumptions C13_format_wrong_size_refuted.
+
+Theorem C13_alloc_wrong_size_detected : forall d, paired (rev (snd (deallocateInternalBuffer (step_wrong init d)))) = false.
+Proof. exact wrong_size_not_paired. Qed.
+Print Assumptions C13_alloc_wrong_size_detected.
 
 (* every operation of a valid scenario: never Oob / NoFuel / Ub ... *)
 Theorem C13_run_safe : forall o, valid o = true -> o_val (run o) <> VErr.
